@@ -9,8 +9,8 @@ import (
 
 func main() {
 	c := core.New("C10", "model_checking")
-	c.Set("rule", "families: F-all/F-fork (every DAG up to N events, dominant-validator weight vectors so that tiny DAGs decide frames), F-round (R synchronous rounds of 2-4 validators with every single/double deviation: dropped parent, same-round parent, no parents, skipped slot, validator lagging L rounds; one fork by a <1/3 validator at every slot); every ideal of every DAG's lattice is reached on the real IndexedLachesis by replay; accepted frames (events carry the reference's frames), registered roots per frame and the emitted blocks are compared with ref/lachesis")
-	cons.ExploreConsensus(c, cons.DefaultConsFamilies(c.Quick(), false), cons.Report{"accept": true, "ref": true})
+	c.Set("rule", "families: F-all/F-fork (every DAG up to N events, dominant-validator weight vectors so that tiny DAGs decide frames), F-round (R synchronous rounds of 2-4 validators with every single/double deviation: dropped parent, same-round parent, no parents, skipped slot, validator lagging L rounds; one fork by a <1/3 validator at every slot); every ideal of every DAG's lattice is reached on the real IndexedLachesis by replay; accepted frames (events carry the reference's frames), registered roots per frame and the emitted blocks (Atropos, delivered event set = new ancestry of the Atropos, cheater list) are compared with ref/lachesis")
+	cons.ExploreConsensus(c, cons.DefaultConsFamilies(c.Quick(), false), cons.Report{"accept": true, "ref": true, "content": true, "cheaters": true})
 	c.Assume("trusted base: ref/lachesis (naive set-based implementation from the rules) and the DAG generators")
 	c.Finish()
 }
